@@ -20,16 +20,21 @@ pub struct PacketConn<RW: Read + Write> {
     // write variables
     to_write: Vec<u8>,
     seq: u8,
+    // the last packet written had the maximal payload length, so the message goes on
+    continued: bool,
 }
 
 impl<W: Read + Write> Write for PacketConn<W> {
     fn write(&mut self, buf: &[u8]) -> io::Result<usize> {
         use std::cmp::min;
-        let left = min(buf.len(), U24_MAX - self.to_write.len());
+        // to_write holds the 4-byte header in addition to the payload
+        let left = min(buf.len(), U24_MAX + 4 - self.to_write.len());
         self.to_write.extend(&buf[..left]);
 
-        if self.to_write.len() == U24_MAX {
+        if self.to_write.len() == U24_MAX + 4 {
             self.end_packet()?;
+            // a maximal packet must be followed by a shorter (possibly empty) one
+            self.continued = true;
         }
         Ok(left)
     }
@@ -52,6 +57,7 @@ impl<RW: Read + Write> PacketConn<RW> {
 
             to_write: vec![0, 0, 0, 0],
             seq: 0,
+            continued: false,
             rw,
         }
     }
@@ -60,7 +66,8 @@ impl<RW: Read + Write> PacketConn<RW> {
 impl<W: Read + Write> PacketConn<W> {
     fn maybe_end_packet(&mut self) -> io::Result<()> {
         let len = self.to_write.len() - 4;
-        if len != 0 {
+        if len != 0 || self.continued {
+            self.continued = false;
             LittleEndian::write_u24(&mut self.to_write[0..3], len as u32);
             self.to_write[3] = self.seq;
             self.seq = self.seq.wrapping_add(1);
